@@ -11,6 +11,7 @@ from ..core import check, Violation
 from ..sim import machine as M
 
 ID = "C14"
+IMPORTS = ['rig.machine_control.machine_controller', 'rig.place_and_route.utils']
 LEVEL = "exploration"
 TECHNIQUE = ("reference-model monitor: probe results and derived "
              "Machine/constraints compared with the simulated machine's "
